@@ -97,7 +97,7 @@ def _lambda_arity(text):
 
 
 class Binding:
-    __slots__ = ("name", "cls", "file", "line", "args", "ndefault", "arity", "is_init", "is_property", "is_static")
+    __slots__ = ("name", "cls", "file", "line", "args", "ndefault", "arity", "is_init", "is_property", "is_static", "returns_map")
 
     def __repr__(self):
         return "Binding(%s.%s args=%s)" % (self.cls, self.name, self.args)
@@ -159,6 +159,7 @@ def bindings():
                     if am.group(2):
                         b.ndefault += 1
             b.arity = _lambda_arity(callable_txt)
+            b.returns_map = bool(re.search(r"->\s*std::map<", callable_txt))
             b.cls = None
             for pos, mk in makers:
                 if pos < m.start():
@@ -254,12 +255,22 @@ def rule_py_bindings(rep, floor=150):
     return r.done()
 
 
+def _isinst(x):
+    import ast
+    if isinstance(x, ast.Call) and isinstance(x.func, ast.Name) and x.func.id == "isinstance" and len(x.args) == 2:
+        a = x.args[1]
+        elts = a.elts if isinstance(a, ast.Tuple) else [a]
+        return ast.unparse(x.args[0]), [ast.unparse(e).split(".")[-1] for e in elts]
+    return None
+
+
 def rule_py_layout_attrs(rep, floor=500):
     import ast
     from .. import pyfront as pf
     r = rep.rule("TABLE.py-layout-attrs", "every attribute the Python layer reads or calls on a layout object (an expression named layout / ending in .layout / ._layout) is a name that src/python/*.cpp binds "
                  "(.def / .def_property...) or that the package itself defines: a mistyped or renamed method would be an AttributeError at run time; "
-                 "(b) a name that content.cpp binds only with .def (a method, never a property) is called where it is used on a layout expression", floor=floor)
+                 "(b) a name that content.cpp binds only with .def (a method, never a property) is called where it is used on a layout expression; "
+                 "(c) RecordForm.contents, which forms.cpp returns as a key-sorted std::map, is only looked up by key, never iterated", floor=floor)
     bound = {b.name for b in bindings()}
     mods = [x for x in pf.all_modules() if "generated_parser" not in x]
     pym = set()
@@ -303,6 +314,25 @@ def rule_py_layout_attrs(rep, floor=500):
         if isinstance(v, ast.Attribute) and v.attr in ("content", "array") and islay(v.value):
             return True
         return False
+    # (c) properties bound as std::map come back key-sorted: fine for lookup, wrong for iteration when order matters
+    sorted_props = {b.name for b in bindings() if b.is_property and b.returns_map and b.file.endswith("forms.cpp")}
+    if "contents" not in sorted_props:
+        raise AnalysisError("RecordForm.contents is no longer bound as a std::map property (anchor moved): clause (c) of TABLE.py-layout-attrs needs re-reading")
+    for rel in mods:
+        m = pf.module(rel)
+        k = 0
+        for c in ast.walk(m.tree):
+            if not (isinstance(c, ast.Attribute) and c.attr in sorted_props and isinstance(c.ctx, ast.Load)):
+                continue
+            recv = ast.unparse(c.value)
+            isrecform = any(inb and any(ic and ic[0] == recv and "RecordForm" in ic[1] for ic in [_isinst(x) for x in ast.walk(t)]) for t, inb in pf.enclosing_tests(c))
+            isrecform = isrecform or (recv == "form" and any(getattr(p_, "name", "") in ("form_tolookup", "from_form") and any(getattr(q_, "name", "") == "RecordArrayType" for q_ in pf.parent_chain(p_)) for p_ in pf.parent_chain(c)))
+            if not isrecform:
+                continue
+            k += 1
+            p_ = getattr(c, "_parent", None)
+            iterated = (isinstance(p_, ast.Attribute) and p_.attr in ("items", "values", "keys")) or (isinstance(p_, (ast.For, ast.comprehension)) and p_.iter is c) or (isinstance(p_, ast.Call) and isinstance(p_.func, ast.Name) and p_.func.id in ("list", "enumerate", "tuple", "iter"))
+            r.check(not iterated, "%s:%s.%s#iter%d" % (rel, recv, c.attr, k), m.where(c), "%s iterates `%s.%s`, which forms.cpp returns as a std::map (sorted by key): the order of the record's fields is lost - use key(i)/content(i) for i in range(numfields)" % (rel, recv, c.attr), detail="only looked up by key")
     for rel in mods:
         m = pf.module(rel)
         par = {}
